@@ -5,6 +5,7 @@ import lrcommon
 from props import c10_table
 from props import c02_lexmodel
 from props import c02_lexemit
+from props import c01_emit
 
 LEVEL = "proof"
 
@@ -15,6 +16,7 @@ def run(r):
     lexcommon.run_lex(r, "C10", use=("lex.bisim", "lex.wfmodes"), also_if_broken=("C02", "C07", "C11"))
     c02_lexmodel.run_lexmodel(r, "C10")
     c02_lexemit.run_lexemit(r, "C10")
+    c01_emit.run_emit(r, "C10")
     # parser tables: the validator reads the arrays back by the documented row format
     n = 8 if r.tier == "quick" else 120
     res = r.run_family("lrgen", n=n, timeout=7200)
